@@ -130,22 +130,22 @@ func c17() {
 	if os.Getenv("MUTAGEN_DATA_DIRECTORY") == "" {
 		os.Setenv("MUTAGEN_DATA_DIRECTORY", filepath.Join(scratch, "mutagen-data"))
 	}
-	cases := r.Pick(160, 8000)
-	workers := workerCount()
-	parallel(workers, func(w int) {
-		for i := w; i < cases; i += workers {
-			rng := r.Rand(fmt.Sprintf("c17-%d", i))
-			base := filepath.Join(scratch, fmt.Sprintf("k%d", i))
-			c17One(r, rng, i, base)
-			forceRemove(base)
-		}
-	})
 	// concurrent replacement while scanning
+	workers := workerCount()
 	rounds := r.Pick(8, 200)
 	parallel(workers, func(w int) {
 		for i := w; i < rounds; i += workers {
 			base := filepath.Join(scratch, fmt.Sprintf("flip%d", i))
 			c17Flip(r, r.Rand(fmt.Sprintf("c17-flip-%d", i)), i, base, r.Pick(150, 400))
+			forceRemove(base)
+		}
+	})
+	cases := r.Pick(300, 8000)
+	parallel(workers, func(w int) {
+		for i := w; i < cases; i += workers {
+			rng := r.Rand(fmt.Sprintf("c17-%d", i))
+			base := filepath.Join(scratch, fmt.Sprintf("k%d", i))
+			c17One(r, rng, i, base)
 			forceRemove(base)
 		}
 	})
